@@ -48,6 +48,19 @@ Section RestraintObject.
 End RestraintObject.
 
 (* ------------------------------------------------------------------------------------------------
+   Module-level output schedule (src/colvarmodule.cpp, calc()):
+     trajectory line      if (cv_traj_freq && ...) write_traj_files(): step_absolute % cv_traj_freq == 0
+     periodic state file  if (restart_out_freq && step_relative() > 0 && step_absolute % restart_out_freq == 0)
+   No state of its own: the step counters are those of the run protocol (ResumeModel). *)
+Record mcfg := mkMCfg { mc_traj_freq : Z; mc_restart_freq : Z }.
+Definition module_machine : machine mcfg unit unit (bool * bool) unit :=
+  mkMachine (fun _ => tt)
+            (fun c _ it rel _ =>
+               (tt, (negb (mc_traj_freq c =? 0) && (Z.rem it (mc_traj_freq c) =? 0),
+                     negb (mc_restart_freq c =? 0) && (0 <? rel) && (Z.rem it (mc_restart_freq c) =? 0))))
+            (fun _ _ => tt) (fun _ s => s) (fun _ _ => tt).
+
+(* ------------------------------------------------------------------------------------------------
    Histogram on scalar variables (src/colvarbias_histogram.cpp, update(): bin of the current values;
    `if (can_accumulate_data()) if (grid->index_ok(bin)) grid->acc_value(bin, 1.0)`; write_state_data:
    the whole grid; read_state_data: the whole grid).  The grid is a total function of the index vector
